@@ -28,7 +28,7 @@ FLOORS = {'quick': {'fresh-compare': 4000, 'shadow': 600, 'copy-independence': 1
           'thorough': {'fresh-compare': 40000, 'shadow': 6000, 'copy-independence': 1500}}
 MANDATORY_TAGS = ['curve', 'surface', 'volume', 'rational', 'container', 'copy', 'op:reverse', 'op:transpose', 'op:flip', 'op:insert',
                   'op:remove', 'op:refine', 'op:weights', 'op:ctrlpts', 'op:delta', 'op:translate', 'op:degree', 'op:knotvector',
-                  'op:container-add', 'op:container-transform', 'read-mutate-read']
+                  'op:container-add', 'op:container-transform', 'op:container-deepcopy', 'read-mutate-read']
 TECHNIQUE = ("runtime monitoring: history driver with an online differential oracle (every read of a derived view vs the same read "
              "on a freshly built object with the same primary definition) plus a shadow model of the primary state, over seeded "
              "mutator/reader histories incl. copies and containers sharing elements")
@@ -227,7 +227,7 @@ def check(case, ctx):
         if e['inserted']:
             ops += ['remove', 'remove']
         if cont is not None:
-            ops += ['container-add', 'container-delta', 'container-transform']
+            ops += ['container-add', 'container-delta', 'container-transform', 'container-deepcopy']
         op = rng.choice(ops)
         S_prev = G.defn_of(o)
         sc = so.scale_of_defn(S_prev)
@@ -407,6 +407,33 @@ def check(case, ctx):
                 ctx.tag('op:container-add')
                 if not read_container():
                     return
+                mutators += 1
+                continue
+            elif op == 'container-deepcopy':
+                # a deep copy of the container (explicit, or what translate/rotate/scale(container) return without inplace) must report
+                # the same aggregates as a freshly built container of the same elements, whatever the order they are read in
+                c2 = copy.deepcopy(cont) if rng.random() < 0.5 else operations.translate(cont, [0.0] * cont.dimension)
+                ctx.tag('op:container-deepcopy')
+                names = ['evalpts', 'bbox'] + (['mesh', 'mesh'] if cont.pdimension == 2 else [])
+                rng.shuffle(names)
+                for nm in names:
+                    fc = fresh_container()
+                    if nm == 'mesh':
+                        try:
+                            live = [[(v.id, list(v.uv), list(v.data)) for v in c2.vertices], [list(f.data) for f in c2.faces]]
+                        except AttributeError as ex:
+                            ctx.fail('copy/container-aggregate-corrupt', 'vertices/faces of a deep-copied container are not Vertex/Triangle '
+                                     'objects after reading %r first (%s)' % (names[:names.index(nm)], ex))
+                            return
+                        exp = [[(v.id, list(v.uv), list(v.data)) for v in fc.vertices], [list(f.data) for f in fc.faces]]
+                    else:
+                        live, exp = view(c2, nm), view(fc, nm)
+                    if not near(live, exp):
+                        ctx.fail('copy/container-%s-differs' % nm, '%s of a deep-copied container (read order %r) differs from a freshly built '
+                                 'container of the same elements' % (nm, names))
+                        return
+                    ctx.ok('fresh-compare')
+                    ctx.ok('container-read')
                 mutators += 1
                 continue
             elif op == 'container-delta':
